@@ -171,7 +171,7 @@ def check_case(spec, flts, exclude, challenge_pos, res):
     res.case(
         case_repr={"schedule": [list(e) for e in spec], "filters": list(flts), "mode": "exclude" if exclude else "include",
                    "challenge_position": challenge_pos, "expected": want}
-        if res.evaluations % 20011 == 3
+        if res.sample_now(20011)
         else None,
         nontrivial_key=(repr(spec), flts, exclude, challenge_pos) if 0 < nsel < len(sel) else None,
         outcome_key=(v[0] if v else "ok", nsel, len(want)),
